@@ -186,10 +186,6 @@ func (c *Crew) SetMachine(ctx context.Context, mid string, src *crew.SpecSource,
 		ch.Deleted = false
 	}
 
-	if src != nil {
-		c.change(mid).SpecSrc = src
-	}
-
 	if state != nil {
 		if have {
 			// Replace the state of the existing machine (and
@@ -238,6 +234,11 @@ func (c *Crew) SetMachine(ctx context.Context, mid string, src *crew.SpecSource,
 			m.SpecSource = ss
 			m.Specter = spec
 		}
+	}
+
+	if src != nil {
+		// Report the source only now that it is in effect.
+		c.change(mid).SpecSrc = src
 	}
 
 	return nil
